@@ -4,18 +4,21 @@ import GoomVerif.Lemmas.C07L
 
 All theorems are about `Model/Iface.lean` in the repaired configuration `Cfg.fixed` (F11: mocker cache keyed by variable,
 F9: every callback retained in `PContext`); the counter-examples for the unrepaired configuration are in
-`Findings/C07F.lean`.  "Reachable" = result of `run` on an arbitrary list of builder-API operations from an initial state
-in which every variable holds nil or a real implementation. -/
+`Findings/C07F.lean`.  "Reachable" = result of `run` on an arbitrary list of builder-API operations (`mock.Interface(&v).Method(..)..` with fitting
+or rejected callbacks, `mock.Reset()`, dropping the builder) from an initial state in which every variable holds nil or a
+real implementation.  Operations through a *kept* `CachedInterfaceMocker` handle (`Op.mockH`) are modelled and run
+differentially; about them only the function-level theorems `canceled_context_fresh_itab` and `within_bound` are proved. -/
 namespace C07
 open Iface C07L
 
 /-- reachable states of the repaired code -/
 def Reachable (s : St) : Prop :=
-  ∃ types vtyp vars0 ops, (∀ v, ∃ x, vars0 v = Words.val x) ∧ run Cfg.fixed (St.init types vtyp vars0) ops = some s
+  ∃ types vtyp vars0 ops, (∀ v, ∃ x, vars0 v = Words.val x) ∧ (∀ op ∈ ops, op.builderApi = true)
+    ∧ run Cfg.fixed (St.init types vtyp vars0) ops = some s
 
 theorem reachable_inv {s : St} (h : Reachable s) : Inv Cfg.fixed s := by
-  obtain ⟨types, vtyp, vars0, ops, hv, hr⟩ := h
-  exact inv_run Cfg.fixed ops _ s (inv_init Cfg.fixed types vtyp vars0 hv) hr
+  obtain ⟨types, vtyp, vars0, ops, hv, hapi, hr⟩ := h
+  exact inv_run Cfg.fixed ops _ s (inv_init Cfg.fixed types vtyp vars0 hv) hapi hr
 
 /-- **slot = index in the type's method set.**  `methodIndexOf` (the slot goom writes) is the position at which a compiled
     call finds the method: `typ.Method(methodIndexOf typ m).Name = m`, it is the first such position, and it equals
@@ -34,21 +37,22 @@ example : methodIndexOf (sortMeths ["b", "Zed", "Abc", "_x"]) "_x" = 2 := by dec
     (`Res.cb k` = the user's closure runs on the caller's arguments; `Res.ret k` = the stubbed value; a `When(a)` stub answers
     only for argument `a`). -/
 theorem dispatch_mocked (s s' : St) (hr : Reachable s) (b v : Nat) (m : String) (kind : Kind)
-    (hs : step Cfg.fixed s (.mock b v m kind) = some (s', .ok)) (x : Nat) :
+    (fits : Bool)
+    (hs : step Cfg.fixed s (.mock b v m kind fits) = some (s', .ok)) (x : Nat) :
     (∃ f c, s'.vars v = .fake f c) ∧
     call s' v m x = (match kind with
       | .ap => .cb s.ncb
       | .rt => .ret s.ncb
       | .wn a => if x = a then .ret s.ncb else .panic "nomatch") := by
   obtain ⟨f, c, g, i, h1, h2, h3, h4, h5, h6, h7, h8, h9⟩ :=
-    mock_dispatch Cfg.fixed rfl s s' b v m kind (reachable_inv hr) hs
+    mock_dispatch Cfg.fixed rfl s s' b v m kind fits (reachable_inv hr) hs
   refine ⟨⟨f, c, h1⟩, ?_⟩
   simp only [call, h1, h2, h3, h5, upd_same, h7]
   cases kind with
   | ap => rfl
-  | rt => simp [cbOf, h9, whenOf, invokeWhen]
+  | rt => simp [cbOf, h8, whenOf, invokeWhen]
   | wn a =>
-    simp only [cbOf, h9 (by simp), whenOf, invokeWhen, List.find?]
+    simp only [cbOf, h8, whenOf, invokeWhen, List.find?]
     by_cases e : x = a
     · subst e; simp
     · have : ¬ (a = x) := fun h => e h.symm
@@ -56,7 +60,7 @@ theorem dispatch_mocked (s s' : St) (hr : Reachable s) (b v : Nat) (m : String) 
 
 /-- the hypotheses are satisfiable: a successful `When` mock of an unexported method in a three-method interface -/
 example : (step Cfg.fixed (St.init (fun _ => sortMeths ["b", "Zed", "Abc"]) (fun _ => 0) (fun _ => .val 0))
-    (.mock 0 1 "b" (.wn 9))).map (·.2) = some .ok := by decide
+    (.mock 0 1 "b" (.wn 9) true)).map (·.2) = some .ok := by decide
 
 theorem idxOf_inj (ms : List String) (a b : String) (ha : a ∈ ms) (h : ms.idxOf a = ms.idxOf b) : a = b := by
   induction ms with
@@ -87,13 +91,13 @@ theorem idxOf_inj (ms : List String) (a b : String) (ha : a ∈ ms) (h : ms.idxO
     mocker's context the itab is fresh and calling `m'` panics with the not-implemented message; otherwise the itab is the
     one the context already had and `m'` keeps exactly the slot it had — so, by induction over the history, each method's slot
     is its own latest replacement or `notImplement`. -/
-theorem dispatch_frame (s s' : St) (hr : Reachable s) (b v : Nat) (m m' : String) (kind : Kind)
-    (hs : step Cfg.fixed s (.mock b v m kind) = some (s', .ok)) (hm' : m' ∈ s.types (s.vtyp v)) (hne : m' ≠ m) (x : Nat) :
+theorem dispatch_frame (s s' : St) (hr : Reachable s) (b v : Nat) (m m' : String) (kind : Kind) (fits : Bool)
+    (hs : step Cfg.fixed s (.mock b v m kind fits) = some (s', .ok)) (hm' : m' ∈ s.types (s.vtyp v)) (hne : m' ≠ m) (x : Nat) :
     ∃ f c, s'.vars v = .fake f c ∧
       ((f = s.nfake ∧ call s' v m' x = .panic "notimpl") ∨
        (f < s.nfake ∧ (s'.fakes f).fn ((s.types (s.vtyp v)).idxOf m') = (s.fakes f).fn ((s.types (s.vtyp v)).idxOf m'))) := by
   obtain ⟨f, c, g, i, h1, h2, h3, h4, h5, h6, h7, h8, h9⟩ :=
-    mock_dispatch Cfg.fixed rfl s s' b v m kind (reachable_inv hr) hs
+    mock_dispatch Cfg.fixed rfl s s' b v m kind fits (reachable_inv hr) hs
   have hidx : (s.types (s.vtyp v)).idxOf m' ≠ (s.types (s.vtyp v)).idxOf m :=
     fun h => hne (idxOf_inj _ _ _ hm' h)
   refine ⟨f, c, h1, ?_⟩
@@ -112,10 +116,27 @@ theorem unmocked_panics (s : St) (v f c : Nat) (m : String) (x : Nat) (hv : s.va
 /-- **different variables are mocked independently.**  In every reachable state, whatever `b.Interface(&v).Method(m)…`
     does (success or panic), every other variable `w` — of the same interface type or not — keeps its two words and the
     function table it dispatches through. -/
-theorem vars_independent (s s' : St) (hr : Reachable s) (b v : Nat) (m : String) (kind : Kind) (st : Status)
-    (hs : step Cfg.fixed s (.mock b v m kind) = some (s', st)) (w : Nat) (hw : w ≠ v) :
+theorem vars_independent (s s' : St) (hr : Reachable s) (b v : Nat) (m : String) (kind : Kind) (fits : Bool) (st : Status)
+    (hs : step Cfg.fixed s (.mock b v m kind fits) = some (s', st)) (w : Nat) (hw : w ≠ v) :
     s'.vars w = s.vars w ∧ ∀ f c, s.vars w = .fake f c → s'.fakes f = s.fakes f :=
-  mock_other_vars Cfg.fixed rfl s s' b v m kind st (reachable_inv hr) hs w hw
+  mock_other_vars Cfg.fixed rfl s s' b v m kind fits st (reachable_inv hr) hs w hw
+
+/-- **a rejected mock changes nothing a caller can see.**  If the callback's signature does not fit the method
+    (`proxy.Interface` returns an error), the call panics and no variable, fake interface or context (hence no backup,
+    no canceled flag) changes — for the mocked variable too. -/
+theorem rejected_mock_changes_nothing (s s' : St) (hr : Reachable s) (b v : Nat) (m : String) (kind : Kind) (st : Status)
+    (hs : step Cfg.fixed s (.mock b v m kind false) = some (s', st)) :
+    (∃ c, st = .panic c) ∧ s'.vars = s.vars ∧ s'.fakes = s.fakes := by
+  cases st with
+  | ok =>
+    obtain ⟨_, _, _, _, _, _, _, _, _, _, _, _, _, _, _, _, _, hfit⟩ := mockStep_ok Cfg.fixed s s' b v m kind false (reachable_inv hr) hs
+    cases hfit
+  | panic c =>
+    obtain ⟨_, h1, h2⟩ := mockStep_panic Cfg.fixed s s' b v m kind false c (reachable_inv hr) hs
+    exact ⟨⟨c, rfl⟩, h1, h2⟩
+
+example : (step Cfg.fixed (St.init (fun _ => sortMeths ["b", "Zed"]) (fun _ => 0) (fun _ => .val 0))
+    (.mock 0 1 "b" .ap false)).map (·.2) = some (.panic "applyerr") := by decide
 
 /-- **Reset puts back the saved words** (builder whose interface mocks all belong to one variable's context `c`): after
     `b.Reset()` the variable saved in the context holds exactly the saved words again if any mock had been applied, no
@@ -145,7 +166,7 @@ theorem reset_restores_words (s s' : St) (b c v : Nat) (w : Words)
 
 /-- satisfiable and non-trivial: a variable holding implementation 5, two methods mocked (Apply and Return), Reset -/
 example : (run Cfg.fixed (St.init (fun _ => sortMeths ["B", "A"]) (fun _ => 0) (fun _ => .val 5))
-    [.mock 0 0 "A" .ap, .mock 0 0 "B" .rt, .reset 0]).map (fun s => (s.vars 0, (s.ctxs 0).canceled)) = some (.val 5, true) := by decide
+    [.mock 0 0 "A" .ap true, .mock 0 0 "B" .rt true, .reset 0]).map (fun s => (s.vars 0, (s.ctxs 0).canceled)) = some (.val 5, true) := by decide
 
 /-- **the saved words are the value the variable held before the first mock**: `proxy.Interface` (the only writer of the
     backup) stores the variable's current words when the context has no backup yet and never overwrites an existing one
@@ -158,6 +179,42 @@ theorem backup_only_first_time (cfg : Cfg) (s s' : St) (v t c : Nat) (m : String
   · cases hs
   · split at hs <;> (cases hs; simp only [upd_same]; cases (s.ctxs c).backup <;> rfl)
 
+/-- **a canceled context never reuses its old itab** (kept handles after `Reset`): when `proxy.Interface` runs on a context
+    that was canceled, the variable gets a *fresh* fake interface whose table has the new callback at the method's index
+    and `notImplement` in every other slot — no method keeps a replacement from before the `Reset`. -/
+theorem canceled_context_fresh_itab (cfg : Cfg) (s s' : St) (v t c : Nat) (m : String) (k : Nat) (cb : Cb)
+    (hc : (s.ctxs c).canceled = true) (hs : proxyInterface cfg s v t c m k cb = some s') :
+    s'.vars v = .fake s.nfake c ∧
+    (s'.fakes s.nfake).fn = upd (fun _ => Slot.notImpl) (methodIndexOf (s.types t) m) (.stub k) := by
+  simp only [proxyInterface] at hs
+  split at hs
+  · cases hs
+  · split at hs
+    · rename_i hcan; rw [hc] at hcan; cases hcan
+    · cases hs; simp
+
+/-- **the table bound** (`hack.MaxMethod`): a method of an interface with at most `maxMethod` methods has its index inside
+    the fabricated table, so `proxy.Interface` never leaves the modelled fragment; at the bound (index ≥ `maxMethod`, only
+    possible for wider interfaces) the model has no successor state (`none`; the Go code panics with index out of range). -/
+theorem within_bound (cfg : Cfg) (s : St) (v t c : Nat) (m : String) (k : Nat) (cb : Cb) :
+    (m ∈ s.types t → (s.types t).length ≤ maxMethod → (proxyInterface cfg s v t c m k cb).isSome = true)
+    ∧ (maxMethod ≤ methodIndexOf (s.types t) m → proxyInterface cfg s v t c m k cb = none) := by
+  constructor
+  · intro hm hl
+    have h1 := (slot_is_type_index _ _ hm).2.2
+    have h2 : (s.types t).idxOf m < (s.types t).length := List.idxOf_lt_length_of_mem hm
+    simp only [proxyInterface]
+    split
+    · omega
+    · split <;> rfl
+  · intro h
+    simp only [proxyInterface]
+    split
+    · rfl
+    · omega
+
+example : maxMethod = 999 := rfl
+
 /-- **retained while held**: in every reachable state, for every variable that holds a fake interface, every object that
     the call path reaches only through GC-invisible references — the fabricated itab (the itab word of an interface is
     not scanned), and the closure / MakeFunc impl whose address is an immediate in each slot's stub — is reachable from the
@@ -167,7 +224,7 @@ theorem retained_while_held (s : St) (hr : Reachable s) (v : Nat) : ∀ n ∈ ne
 
 /-- satisfiable: a reachable state with three live mocks, builder dropped, everything needed is reachable -/
 example : (run Cfg.fixed (St.init (fun _ => sortMeths ["B", "A"]) (fun _ => 0) (fun _ => .val 0))
-    [.mock 0 0 "A" .rt, .mock 0 0 "B" .rt, .mock 0 0 "A" .ap, .drop 0]).map
+    [.mock 0 0 "A" .rt true, .mock 0 0 "B" .rt true, .mock 0 0 "A" .ap true, .drop 0]).map
       (fun s => ((needed s 0).length, (needed s 0).all (fun n => (bfs s 64 [.var 0] []).contains n))) = some (3, true) := by decide
 
 end C07
